@@ -108,3 +108,236 @@ def _(cls: Const(RootKeyRecord), data: Bytes(lo=4 + 4 * 48 + 96)) -> Opaque():
     pure()
     sample_with(lambda rnd: {"cls": RootKeyRecord, "data": bytes([rnd.randrange(1, 5) * 16 + rnd.randrange(1, 3)]) + bytes(rnd.getrandbits(8) for _ in range(320))})
 
+
+
+# ---- certificate block headers (v1 "cert", v2.1 "chdr"): byte layout as the ROM reads it, and parse inverts export ----------------------
+from spsdk.utils.crypto.cert_blocks import CertBlockHeader, CertificateBlockHeader  # noqa: E402
+
+inline("spsdk.utils.crypto.cert_blocks:CertBlockHeader.__init__", "spsdk.utils.crypto.cert_blocks:CertBlockHeader.parse",
+       "spsdk.utils.crypto.cert_blocks:CertificateBlockHeader.__init__", "spsdk.utils.crypto.cert_blocks:CertificateBlockHeader.parse")
+
+
+def le16(v):
+    return v.to_bytes(2, "little")
+
+
+def le32(v):
+    return v.to_bytes(4, "little")
+
+
+def _CBH(ver):
+    return Obj(CertBlockHeader, version=Const(ver), flags=U32, build_number=U32, image_length=U32, cert_count=U32, cert_table_length=U32)
+
+
+def _mk_cbh(rnd):
+    h = CertBlockHeader(rnd.choice(["1.0", "1.1", "2.7"]), rnd.getrandbits(32), rnd.getrandbits(32))
+    h.image_length, h.cert_count, h.cert_table_length = rnd.getrandbits(32), rnd.randrange(5), rnd.getrandbits(32)
+    return h
+
+
+@contract("spsdk.utils.crypto.cert_blocks:CertBlockHeader.export")
+def _(self: Union[_CBH("1.0"), _CBH("1.1"), _CBH("2.7")]) -> bytes:
+    let(major=1 if self.version != "2.7" else 2, minor=0 if self.version == "1.0" else 1 if self.version == "1.1" else 7)
+    returns(b"cert" + le16(major) + le16(minor) + le32(32) + le32(self.flags) + le32(self.build_number) + le32(self.image_length)
+            + le32(self.cert_count) + le32(self.cert_table_length), label="signature-version-length-flags-build-image-length-count-table-length")
+    pure()
+    sample_with(lambda rnd: {"self": _mk_cbh(rnd)})
+
+
+@lemma("cert-block-v1-header-1-0-parse-inverts-export")
+def _(flags: U32, build: U32, image_length: U32, count: U32, table: U32):
+    # the version numbers are concrete here: formatting a symbolic integer into the version string is outside the encoding
+    let(back=CertBlockHeader.parse(b"cert" + le16(1) + le16(0) + le32(32) + le32(flags) + le32(build) + le32(image_length) + le32(count) + le32(table)))
+    ensures(back.flags == flags and back.build_number == build and back.image_length == image_length and back.cert_count == count
+            and back.cert_table_length == table and back.version == "1.0", label="every-header-word-comes-back")
+
+
+@lemma("cert-block-v1-header-1-1-parse-inverts-export")
+def _(flags: U32, build: U32, image_length: U32, count: U32, table: U32):
+    # the version numbers are concrete here: formatting a symbolic integer into the version string is outside the encoding
+    let(back=CertBlockHeader.parse(b"cert" + le16(1) + le16(1) + le32(32) + le32(flags) + le32(build) + le32(image_length) + le32(count) + le32(table)))
+    ensures(back.flags == flags and back.build_number == build and back.image_length == image_length and back.cert_count == count
+            and back.cert_table_length == table and back.version == "1.1", label="every-header-word-comes-back")
+
+
+def _CH(ver):
+    return Obj(CertificateBlockHeader, format_version=Const(ver), cert_block_size=U32)
+
+
+def _mk_ch(rnd):
+    h = CertificateBlockHeader(rnd.choice(["2.1", "2.2"]))
+    h.cert_block_size = rnd.getrandbits(32)
+    return h
+
+
+@contract("spsdk.utils.crypto.cert_blocks:CertificateBlockHeader.export")
+def _(self: Union[_CH("2.1"), _CH("2.2")]) -> bytes:
+    # the ROM reads minor before major
+    returns(b"chdr" + le16(1 if self.format_version == "2.1" else 2) + le16(2) + le32(self.cert_block_size), label="magic-minor-major-block-size")
+    pure()
+    sample_with(lambda rnd: {"self": _mk_ch(rnd)})
+
+
+@lemma("cert-block-v21-header-parse-inverts-export")
+def _(size: U32):
+    let(h=CertificateBlockHeader("2.1"))
+    let(back=CertificateBlockHeader.parse(b"chdr" + le16(1) + le16(2) + le32(size)))
+    ensures(back.cert_block_size == size and back.format_version == "2.1", label="size-and-version-come-back")
+
+
+# ---- certificate block v2.1 body: root key record, ISK certificate and what the selected root key signs ----------------------------------
+from spsdk.utils.crypto.cert_blocks import CertBlockV21, IskCertificate  # noqa: E402
+from specs.certblock import SIGN_ROOT256, SIGN_ROOT384, AbsRootSigner256, AbsRootSigner384  # noqa: E402
+
+inline("spsdk.utils.crypto.cert_blocks:RootKeyRecord.expected_size", "spsdk.utils.crypto.cert_blocks:IskCertificate.expected_size",
+       "spsdk.utils.crypto.cert_blocks:IskCertificate.signature_offset")
+
+
+def RKREC(k, hl):
+    return Obj(RootKeyRecord, flags=U32, _rkht=V21(k, hl), root_public_key=Bytes(2 * hl))
+
+
+def _mk_rkrec(rnd):
+    k, hl = rnd.randrange(1, 5), rnd.choice([32, 48])
+    r = RootKeyRecord(ca_flag=False, root_certs=[], used_root_cert=0)
+    r.flags = rnd.getrandbits(32)
+    r._rkht = RKHTv21([bytes(rnd.getrandbits(8) for _ in range(hl)) for _ in range(k)])
+    r.root_public_key = bytes(rnd.getrandbits(8) for _ in range(2 * hl))
+    return r
+
+
+@contract("spsdk.utils.crypto.cert_blocks:RootKeyRecord.export")
+def _(self: Union[RKREC(1, 32), RKREC(2, 32), RKREC(4, 32), RKREC(1, 48), RKREC(3, 48)]) -> bytes:
+    # flags, then the table of root key hashes (only when there is more than one root key), then X||Y of the root key in use
+    returns(le32(self.flags) + (b"".join(self._rkht.rkh_list) if len(self._rkht.rkh_list) > 1 else b"") + self.root_public_key,
+            label="flags-hash-table-for-several-keys-then-the-used-root-public-key")
+    pure()
+    sample_with(lambda rnd: {"self": _mk_rkrec(rnd)})
+
+
+def ISKC(cs, signer):
+    return Obj(IskCertificate, flags=U32, offset_present=bool, constraints=U32, isk_cert=Obj(PublicKeyEcc, coordinate_size=Const(cs)),
+               user_data=Bytes(lo=0, hi=96), signature=Bytes(lo=0, hi=132), isk_public_key_data=Bytes(2 * cs), signature_provider=signer)
+
+
+def isk_header(self):
+    off = (12 if self.offset_present else 8) + len(self.user_data) + len(self.isk_public_key_data)
+    return (le32(off) if self.offset_present else b"") + le32(self.constraints) + le32(self.flags)
+
+
+def _mk_isk(rnd, signed=True):
+    from spsdk.crypto.keys import EccCurve, PrivateKeyEcc
+
+    c = rnd.choice([EccCurve.SECP256R1, EccCurve.SECP384R1])
+    signer = rnd.choice([AbsRootSigner256(), AbsRootSigner384()])
+    i = IskCertificate(constraints=rnd.getrandbits(32), signature_provider=signer, isk_cert=PrivateKeyEcc.generate_key(c).get_public_key(),
+                       user_data=bytes(rnd.getrandbits(8) for _ in range(rnd.choice([0, 0, 4, 48, 96]))), offset_present=rnd.random() < 0.7)
+    if signed:
+        i.signature = bytes(rnd.getrandbits(8) for _ in range(signer.signature_length))
+    return i
+
+
+_ISKS = Union[ISKC(32, Obj(AbsRootSigner256)), ISKC(48, Obj(AbsRootSigner256)), ISKC(32, Obj(AbsRootSigner384)), ISKC(48, Obj(AbsRootSigner384))]
+
+
+@contract("spsdk.utils.crypto.cert_blocks:IskCertificate.export")
+def _(self: _ISKS) -> bytes:
+    raises(SPSDKError, len(self.signature) == 0, label="unsigned-certificate-is-not-exported")
+    returns(isk_header(self) + self.isk_public_key_data + self.user_data + self.signature,
+            label="signature-offset-constraints-flags-public-key-user-data-signature")
+    ensures(implies(self.offset_present, int.from_bytes(result[0:4], "little") == len(result) - len(self.signature)),
+            label="signature-offset-points-at-the-signature")
+    pure()
+    sample_with(lambda rnd: {"self": _mk_isk(rnd, signed=rnd.random() < 0.9)})
+
+
+@contract("spsdk.utils.crypto.cert_blocks:IskCertificate.create_isk_signature")
+def _(self: _ISKS, key_record_data: Bytes(lo=4, hi=400), force: bool):
+    let(msg=key_record_data + isk_header(self) + self.isk_public_key_data + self.user_data)
+    let(keep=len(old(self.signature)) > 0 and not force)
+    ensures(implies(keep, self.signature == old(self.signature)), label="existing-signature-is-kept-unless-forced")
+    ensures(implies(not keep, self.signature == (SIGN_ROOT256(msg) if typed(self.signature_provider, AbsRootSigner256) else SIGN_ROOT384(msg))),
+            label="root-key-signs-exactly-record-header-isk-key-user-data")
+    modifies(self.signature)
+    sample_with(lambda rnd: {"self": _mk_isk(rnd, signed=rnd.random() < 0.3), "key_record_data": bytes(rnd.getrandbits(8) for _ in range(rnd.choice([68, 100, 196]))),
+                             "force": rnd.random() < 0.5})
+
+
+def CB21(rec, isk):
+    return Obj(CertBlockV21, header=_CH("2.1"), root_key_record=rec, isk_certificate=isk)
+
+
+def _mk_cb21(rnd):
+    cb = CertBlockV21()
+    cb.root_key_record = _mk_rkrec(rnd)
+    cb.isk_certificate = _mk_isk(rnd, signed=rnd.random() < 0.5) if rnd.random() < 0.7 else None
+    return cb
+
+
+@contract("spsdk.utils.crypto.cert_blocks:CertBlockV21.export")
+def _(self: Union[CB21(RKREC(1, 32), Const(None)), CB21(RKREC(4, 32), Const(None)), CB21(RKREC(2, 32), ISKC(32, Obj(AbsRootSigner256))),
+                  CB21(RKREC(3, 48), ISKC(48, Obj(AbsRootSigner384))), CB21(RKREC(1, 48), ISKC(32, Obj(AbsRootSigner384)))]) -> bytes:
+    let(rec=le32(self.root_key_record.flags) + (b"".join(self.root_key_record._rkht.rkh_list) if len(self.root_key_record._rkht.rkh_list) > 1 else b"")
+        + self.root_key_record.root_public_key)
+    let(isk=self.isk_certificate)
+    let(tbs=(rec + isk_header(isk) + isk.isk_public_key_data + isk.user_data) if isk is not None else b"")
+    let(sig=b"" if isk is None else old(isk.signature) if len(old(isk.signature)) > 0
+        else SIGN_ROOT256(tbs) if typed(isk.signature_provider, AbsRootSigner256) else SIGN_ROOT384(tbs))
+    let(body=rec + ((isk_header(isk) + isk.isk_public_key_data + isk.user_data + sig) if isk is not None else b""))
+    returns(b"chdr" + le16(1) + le16(2) + le32(12 + len(body)) + body, label="header-with-total-size-then-record-then-isk-certificate-signed-over-the-record")
+    modifies(self.header.cert_block_size, self.isk_certificate.signature)
+    sample_with(lambda rnd: {"self": _mk_cb21(rnd)})
+
+
+# ---- certificate block v1: header, length-prefixed certificates in chain order, the 4-slot hash table, zero padding --------------------------
+from spsdk.utils.crypto.cert_blocks import CertBlockV1  # noqa: E402
+from specs.certblock import AbsCert  # noqa: E402
+
+inline("spsdk.utils.crypto.cert_blocks:CertBlockV1.header", "spsdk.utils.crypto.cert_blocks:CertBlockV1.rkh", "spsdk.utils.crypto.cert_blocks:CertBlockV1.rkh_index",
+       "spsdk.utils.crypto.cert_blocks:CertBlockV1.alignment", "spsdk.utils.crypto.cert_blocks:CertBlockV1.raw_size")
+
+_CERT = Obj(AbsCert, _bytes=Bytes(lo=1, hi=3000), ca=bool, _pkh=Bytes(32))
+
+
+def CBV1(m, k):
+    return Obj(CertBlockV1, _header=_CBH("1.0"), _rkht=V1(k), _cert=ListOf(_CERT, m), _alignment=OneOf(16, 4, 1))
+
+
+def _mk_cbv1(rnd):
+    m, k = rnd.randrange(1, 4), rnd.randrange(1, 5)
+    b = CertBlockV1(build_number=rnd.getrandbits(16))
+    b._alignment = rnd.choice([16, 4, 1])
+    hashes = [bytes(rnd.getrandbits(8) for _ in range(32)) for _ in range(k)]
+    b._rkht = RKHTv1(hashes)
+    ok = rnd.random() < 0.8
+    for i in range(m):
+        c = AbsCert(bytes(rnd.getrandbits(8) for _ in range(rnd.randrange(1, 900))), (i < m - 1) if ok else rnd.random() < 0.5,
+                    rnd.choice(hashes) if (i or ok or rnd.random() < 0.5) else bytes(32))
+        b._cert.append(c)
+        b._header.cert_count += 1
+        b._header.cert_table_length += len(c._bytes) + 4
+    return b
+
+
+def v1_table(self):
+    return b"".join([(self._rkht.rkh_list[i] if i < len(self._rkht.rkh_list) else bytes(32)) for i in range(4)])
+
+
+def v1_certs(self):
+    return b"".join([le32(len(c._bytes)) + c._bytes for c in self._cert])
+
+
+@contract("spsdk.utils.crypto.cert_blocks:CertBlockV1.export")
+def _(self: Union[CBV1(1, 1), CBV1(1, 4), CBV1(2, 2), CBV1(3, 3)]) -> bytes:
+    # representation invariant kept by add_certificate: the header counts the certificates and the bytes of the table
+    requires(self._header.cert_count == len(self._cert) and self._header.cert_table_length == sum([len(c._bytes) + 4 for c in self._cert]))
+    let(m=len(self._cert))
+    raises(SPSDKError, not any(h == self._cert[0]._pkh for h in self._rkht.rkh_list), label="root-certificate-key-must-be-in-the-table")
+    raises(SPSDKError, self._cert[m - 1].ca or not all(c.ca for c in self._cert[: m - 1]), label="only-the-last-certificate-is-not-a-ca")
+    let(body=b"cert" + le16(1) + le16(0) + le32(32) + le32(self._header.flags) + le32(self._header.build_number) + le32(self._header.image_length)
+        + le32(m) + le32(self._header.cert_table_length) + v1_certs(self) + v1_table(self))
+    ensures(result[: len(body)] == body, label="header-length-prefixed-certificates-in-chain-order-then-the-hash-table")
+    ensures(len(result) % self._alignment == 0 and len(result) - len(body) < self._alignment and forall(len(body), len(result), lambda i: result[i] == 0),
+            label="zero-padding-up-to-the-alignment-only")
+    pure()
+    sample_with(lambda rnd: {"self": _mk_cbv1(rnd)})
